@@ -268,15 +268,19 @@ SlotResults(lines) ==               \* all results the specification allows (bou
        ELSE rest
 ToolTexts == UNION {[1..n -> DOMAIN LineOf] : n \in 0..MaxLines}
 
-RL(op, code, method, ncalls, argeq, reseq, aerr, cerr, toolran, lines, slots, exit, steq, mode) ==
+\* shape of a scripted slot result of the served agent: "normal" (a result or an error), "both" (a result AND an
+\* error), "neither" (no result, no error)
+RLs(op, code, method, ncalls, argeq, reseq, aerr, cerr, toolran, lines, slots, exit, steq, mode, shape) ==
   rlast' = [op |-> op, code |-> code, method |-> method, ncalls |-> ncalls, argeq |-> argeq, reseq |-> reseq,
             aerr |-> aerr, cerr |-> cerr, pan |-> FALSE, remote |-> remote, toolran |-> toolran,
-            lines |-> lines, slots |-> slots, exit |-> exit, steq |-> steq, mode |-> mode]
+            lines |-> lines, slots |-> slots, exit |-> exit, steq |-> steq, mode |-> mode, shape |-> shape]
+RL(op, code, method, ncalls, argeq, reseq, aerr, cerr, toolran, lines, slots, exit, steq, mode) ==
+  RLs(op, code, method, ncalls, argeq, reseq, aerr, cerr, toolran, lines, slots, exit, steq, mode, "normal")
 
 RInit == /\ ag = AgInit /\ dag = AgInit /\ remote \in BOOLEAN /\ hist = 0
          /\ rlast = [op |-> "init", code |-> -1, method |-> "", ncalls |-> 0, argeq |-> TRUE, reseq |-> TRUE, aerr |-> FALSE,
                      cerr |-> FALSE, pan |-> FALSE, remote |-> remote, toolran |-> FALSE, lines |-> <<>>, slots |-> <<>>,
-                     exit |-> 0, steq |-> TRUE, mode |-> "model"]
+                     exit |-> 0, steq |-> TRUE, mode |-> "model", shape |-> "normal"]
 
 \* an operation through the client: encoded, dispatched by its code, decoded, applied to the served agent; the
 \* same operation applied directly to a twin (dag); the caller sees the served agent's result
@@ -298,7 +302,19 @@ ListSlots(text, exit) ==
      ELSE IF exit # 0 THEN RL("listslots", 32, h, 1, TRUE, TRUE, TRUE, TRUE, TRUE, lines, <<>>, exit, TRUE, "model")
      ELSE \E r \in SlotResults(lines) : RL("listslots", 32, h, 1, TRUE, TRUE, FALSE, FALSE, TRUE, lines, r, exit, TRUE, "model")
 
+\* a served agent (any YubiAgent, e.g. the recording agent) answers a slot operation with a result, an error, both or
+\* neither; ServeAgent transmits what it got; an error of the agent is an error for the caller whatever came along;
+\* "neither" is unspecified for read / attest (no certificate to return), an empty listing for list-slots
+SlotReply(op, shape) ==
+  /\ op \in SlotOps /\ hist < MaxHist /\ hist' = hist + 1 /\ remote' = remote /\ ag' = ag /\ dag' = dag
+  /\ LET aerr == shape \in {"err", "both"} IN
+     \E cerr \in BOOLEAN :
+       /\ (shape = "neither" /\ op # "listslots") \/ cerr = aerr
+       /\ RLs(op, CodeOf[op], HandlerOf[CodeOf[op]], 1, TRUE, ~aerr, aerr, cerr, FALSE, <<>>, <<>>, 0, TRUE, "modelrec",
+              IF shape \in {"both", "neither"} /\ ~(shape = "neither" /\ op = "listslots") THEN shape ELSE "normal")
+
 RNext == \/ \E op \in Ops \ {"listslots"} : \E a \in ArgsOf(op) : ViaClient(op, a)
+         \/ \E op \in SlotOps, sh \in {"ok", "err", "both", "neither"} : SlotReply(op, sh)
          \/ \E t \in ToolTexts, x \in {0, 1} : ListSlots(t, x)
 
 \* ---- C13 ----
@@ -309,10 +325,12 @@ C13_Step ==
   LET e == rlast' IN
   /\ ~e.pan
   /\ e.op \in Ops
-  /\ (e.mode \in {"model", "rec"}) =>      \* a recording agent behind ServeAgent: what it saw, what the caller saw
+  /\ (e.mode \in {"model", "modelrec", "rec"}) =>      \* a recording agent behind ServeAgent: what it saw, what the caller saw
         /\ e.method = MethodOf[e.op] /\ e.ncalls = 1
         /\ (e.op # "forward" => e.code = CodeOf[e.op]) /\ (e.op = "forward" => (e.code \in AllCodes /\ DispatchOf[e.code] = "fwd"))
-        /\ e.argeq /\ e.reseq /\ (e.cerr = e.aerr)
+        /\ e.argeq
+        /\ e.aerr => e.cerr                       \* a failure is reported as an error, whatever result came along with it
+        /\ (~e.aerr /\ e.shape # "neither") => (~e.cerr /\ e.reseq)
   /\ (e.mode \in {"model", "real", "tool"} /\ e.op \in SlotOps /\ e.remote) => (e.cerr /\ ~e.toolran)
   /\ (e.mode \in {"model", "tool"} /\ e.op \in SlotOps /\ ~e.remote) =>
         /\ e.toolran /\ e.argeq                     \* the tool was asked for this action and this slot
@@ -331,13 +349,14 @@ WFrozen == /\ stream = <<>> /\ pos = 1 /\ out = <<>> /\ status = "ok"
 RFrozen == /\ ag = AgInit /\ dag = AgInit /\ remote = FALSE /\ hist = 0
            /\ rlast = [op |-> "init", code |-> -1, method |-> "", ncalls |-> 0, argeq |-> TRUE, reseq |-> TRUE, aerr |-> FALSE,
                        cerr |-> FALSE, pan |-> FALSE, remote |-> FALSE, toolran |-> FALSE, lines |-> <<>>, slots |-> <<>>,
-                       exit |-> 0, steq |-> TRUE, mode |-> "model"]
+                       exit |-> 0, steq |-> TRUE, mode |-> "model", shape |-> "normal"]
 ConsumeW   == Consume /\ UNCHANGED rvars
 ReleaseW   == Release /\ UNCHANGED rvars
 ViaClientR == (\E op \in Ops \ {"listslots"} : \E a \in ArgsOf(op) : ViaClient(op, a)) /\ UNCHANGED wvars
 ListSlotsR == (\E t \in ToolTexts, x \in {0, 1} : ListSlots(t, x)) /\ UNCHANGED wvars
+SlotReplyR == (\E op \in SlotOps, sh \in {"ok", "err", "both", "neither"} : SlotReply(op, sh)) /\ UNCHANGED wvars
 NextW == ConsumeW \/ ReleaseW
-NextR == ViaClientR \/ ListSlotsR
+NextR == ViaClientR \/ ListSlotsR \/ SlotReplyR
 SpecWire == WInit /\ RFrozen /\ [][NextW]_vars
 SpecRpc  == RInit /\ WFrozen /\ [][NextR]_vars
 =============================================================================
